@@ -18,7 +18,7 @@ IStep == \E f \in Faces, n \in MCNames, cbp \in BOOLEAN, mbf \in (IF Fan = "wide
            LET i == [f |-> f, n |-> n, cbp |-> cbp, mbf |-> mbf, nonce |-> nonce, life |-> life, hop |-> hop,
                      hints |-> <<>>, nh |-> -1, dtok |-> f * 10, dnl |-> DnlKnown(n, nonce)]
            IN \E csn \in ImplCsSet(i) : \E S \in ImplSSet(i, csn) :
-                RecvInterest(i, [S |-> S, csn |-> csn, ex |-> ImplEx(i, csn), dins |-> ImplDinsI(i, csn)])
+                RecvInterest(i, [S |-> S, csn |-> (IF ScopeOk(i.f, csn) THEN csn ELSE NoName), hit |-> csn # NoName, ex |-> ImplEx(i, csn), dins |-> ImplDinsI(i, csn)])
 DStep == \E f \in Faces, n \in MCData, fresh \in {1}, tk \in {-1, 1} :
            LET d == [f |-> f, n |-> n, fresh |-> fresh, tk |-> tk, wire |-> 0]
            IN \E di \in ImplDinsDSet(d) : RecvData(d, [D |-> ImplD(d), dins |-> di])
